@@ -55,10 +55,14 @@ MANIFEST = {
                   "copied bytes. Supporting theorems: C10_decoder_fuel_irrelevant (C01's decoder gives the same result at every fuel >= a "
                   "structural bound: the cropped file is shorter than its input, C01's fixed point re-decodes with the input's fuel), "
                   "C10_rebuilt_leaf_prints_and_parses (print-then-parse of stts ctts stsc stsz stco/co64/stss sdtp elst mvhd tkhd for ANY "
-                  "values that fit), C10_report_is_tool; Examples on both layouts. "
+                  "values that fit), C10_report_is_tool; Examples on both layouts. C10_output_size (unconditional): the sizeWithoutMdat "
+                  "that shifted the chunk offsets IS the sum of the Size() of the boxes the tool encodes (uint64) - replacing the table "
+                  "leaves changes the tree's size by the difference of the table-box sizes, tkhd/mvhd/elst keep theirs - so the chunk "
+                  "offsets of C10_crop_end_to_end are relative to the real byte layout of the file written, and `rest` of that theorem is "
+                  "instantiated by scope (Size() of the non-mdat input boxes minus Size() of the input's table boxes). "
                   "Explored only (correspondence + search): the two boolean hypotheses of C10_output_decodes (exact input boxes, tree_fits) "
-                  "are EVALUATED on every successful whole-tool case (all satisfy them) but not derived from decodedness of the input; that the "
-                  "encoded length equals the sizeWithoutMdat that shifted the offsets is compared on every case, not proved; DecodeFile's "
+                  "are EVALUATED on every successful whole-tool case (all satisfy them) but not derived from decodedness of the input (tree_fits is "
+                  "conditional by nature: a version-0 mvhd next to 64-bit tkhd durations would be cut by the encoder); DecodeFile's "
                   "lazy-mdat reader path vs C01's slice path; inputs outside the modelled structure (missing/repeated mandatory child boxes, "
                   "several moov/mdat); the whole binary on synthesized files.",
     "level_note": "Trusted: Coq kernel, extraction, OCaml/Go glue, hand transcription checked only differentially (virt correspondence: the "
@@ -66,8 +70,9 @@ MANIFEST = {
                   "start of the mdat cropMP4 writes; a checksum of the written mdat payload must equal the model's write_mdat bytes, lazy and "
                   "in-memory input mdat; handler letters v/s/o per track; a repeated track id; whole tool: the extracted crop_tool must reproduce "
                   "the binary's outcome class and every byte of its output file on every whole-tool run + a malformed stream); in the "
-                  "end-to-end theorem of C10Theorems.v `rest` is still a parameter (C10TreeModel instantiates it; the instantiation is "
-                  "checked per case, not proved); C10FileTheorems.v imports coq/c01 (model + proofs) read-only; hypotheses of the end-to-end "
+                  "end-to-end theorem of C10Theorems.v `rest` is a parameter that C10TreeModel.scope instantiates (C10_output_size proves the "
+                  "instantiation gives the real size); C10FileTheorems.v imports coq/c01 (model + proofs) read-only and rebuilds when C01 "
+                  "changes; hypotheses of the end-to-end "
                   "theorem: trak_wf per track, 2^62 + 2*sample bytes < 2^64, |pre| + 8 + 2*sample bytes < 2^64, input file < 2^63 bytes, "
                   "lazily decoded non-empty input mdat; C10SizeProofs imports coq/c01/C01Model.v read-only.",
 }
